@@ -15,7 +15,7 @@ def cases(rng, tier):
                 if rng.random() < 0.3:
                     cs.append({"kind": "matrix", "n": n, "e": ("dgr", (kind, m))})
     # larger registers, scattered masks, random states
-    for _ in range(40 if tier == "quick" else 200):
+    for _ in range(40 if tier == "quick" else 1000):
         n = rng.randint(5, 6 if tier == "quick" else 7)
         m = rng.randrange(1, 1 << n)
         kind = rng.choice(["qft", "qft_swapped"])
